@@ -766,9 +766,9 @@ pub fn code_block(input: ParseString) -> ParseResult<SectionElement> {
       let ebnf_text = block_src.iter().collect::<String>();
       match parse_grammar(&ebnf_text) {
         Ok(grammar_tree) => {return Ok((input, SectionElement::Grammar(grammar_tree)));},
-        Err(err) => {
-          println!("Error parsing EBNF grammar: {:?}", err);
-          todo!();
+        Err(_) => {
+          // a grammar that does not parse is a parse error of the document, located at the end of the block
+          return Err(nom::Err::Error(ParseError::new(input, "Error parsing EBNF grammar in code block")));
         }
       }
     }
